@@ -6,6 +6,7 @@ CONSTANTS
   TrimDepth = 4
   MaxSteps = 100000000
   WithCrash = FALSE
+  HeadInBatch = TRUE
   CrashInHeadWindow = FALSE
   SpendTrimCandidate = TRUE
 INVARIANTS ImageConforms AcceptedBlocksValid ReorgEqualsFreshReplay CommitmentEqualsContent SpentAtMostOnce
